@@ -232,7 +232,7 @@ CLASSES = [[2], [1], [5, 6], [9]]
 GATTR = None
 
 
-def gen_font(r, npasses=None, dirn=None, maxloop=None, posallow=None, allow=None, constraints=True, max_rules=5, ipos=None):
+def gen_font(r, npasses=None, dirn=None, maxloop=None, posallow=None, allow=None, constraints=True, max_rules=5, ipos=None, rtl=False):
     """a random font: 1..3 passes (substitution then positioning), each with 1..5 rules over the glyph columns.
     Returns (sfnt bytes, description); description["model"] is the same font in the line format of `grdriver shape`."""
     np_ = npasses or r.randrange(1, 4)
@@ -246,27 +246,34 @@ def gen_font(r, npasses=None, dirn=None, maxloop=None, posallow=None, allow=None
         if not constraints:
             rules = [(ru[0], ru[1], b'', ru[3], ru[4], ru[5]) for ru in rules]
         trans, nst, ntr, nsu, rm = trie_fsm([ru[4] for ru in rules], ncols)
-        specs.append(dict(pre=pre, rules=rules, ml=maxloop or r.choice([1, 2, 5, 5, 20]), trans=trans, nst=nst, ntr=ntr, nsu=nsu, rm=rm))
+        # `rtl`: some passes run against the font's direction (bit 5 of the pass flags)
+        specs.append(dict(pre=pre, rules=rules, ml=maxloop or r.choice([1, 2, 5, 5, 20]), trans=trans, nst=nst, ntr=ntr, nsu=nsu, rm=rm,
+                          flags=(32 if rtl and r.random() < 0.3 else 0)))
 
     def passes_fn(i, base):
         sp = specs[i]
-        return mk_pass([ru[:4] for ru in sp["rules"]], ncols, cols, sp["trans"], sp["nst"], sp["ntr"], sp["nsu"], sp["rm"], [0], sp["pre"], sp["pre"], base, maxloop=sp["ml"])
+        return mk_pass([ru[:4] for ru in sp["rules"]], ncols, cols, sp["trans"], sp["nst"], sp["ntr"], sp["nsu"], sp["rm"], [0], sp["pre"], sp["pre"], base, maxloop=sp["ml"], flags=sp["flags"])
     d = r.choice([0, 0, 1]) if dirn is None else dirn
     gl = r.__class__(r.random())          # glyph attributes come from their own stream so that the model line can repeat them
     gattr = [[0, 0, gl.choice([0, 0, 10, 20, -10, 30]), 0] for _ in range(NG)]
+    if rtl:
+        # bidi class 16 (non-spacing mark) for some glyphs: `reverseSlots` keeps them behind their base
+        for g in range(1, NG):
+            if gl.random() < 0.25:
+                gattr[g][3] = 16
     data = build_with(passes_fn, np_, isubst, ipos, CLASSES, dirn=d, gattr=gattr)
     colarr = [0xFFFF] + [(g - 1) % ncols for g in range(1, NG)]
     pm = []
     for sp in specs:
         pm.append("/".join([
-            "%d,%d,%d,%d,%d,%d,%d" % (sp["ml"], sp["pre"], sp["pre"], ncols, sp["ntr"], sp["nst"], sp["nsu"]),
+            "%d,%d,%d,%d,%d,%d,%d,%d" % (sp["ml"], sp["pre"], sp["pre"], ncols, sp["ntr"], sp["nst"], sp["nsu"], sp["flags"]),
             ",".join(map(str, colarr)), "0",
             ";".join(",".join(map(str, row)) for row in sp["trans"]) or "-",
             ";".join((",".join(map(str, l)) or "-") for l in sp["rm"]) or "-",
             ";".join("%d,%d,%s,%s" % (ru[0], ru[1], ru[2].hex() or "-", ru[3].hex() or "-") for ru in sp["rules"]),
             ";".join(".".join(map(str, ru[4])) for ru in sp["rules"])]))
-    model = "ipos=%d classes=%s gattr=%s gadv=%s passes=%s" % (ipos, ";".join(".".join(map(str, c)) for c in CLASSES),
-                                                              ";".join(".".join(map(str, g)) for g in gattr), ".".join(str(500 + 10 * g) for g in range(NG)), "|".join(pm))
+    model = "ipos=%d sdir=%d classes=%s gattr=%s gadv=%s passes=%s" % (ipos, d, ";".join(".".join(map(str, c)) for c in CLASSES),
+                                                                      ";".join(".".join(map(str, g)) for g in gattr), ".".join(str(500 + 10 * g) for g in range(NG)), "|".join(pm))
     desc = {"passes": np_, "ipos": ipos, "ncols": ncols, "dir": d, "model": model,
             "rules": [[{"sort": ru[0], "pre": ru[1], "con": ru[2].hex(), "act": ru[3].hex(), "pat": list(ru[4]), "kinds": ru[5]} for ru in sp["rules"]] for sp in specs]}
     return data, desc
@@ -336,28 +343,29 @@ def gen_boundary_font(r):
     return build_with(passes_fn, 1, 0, 1, CLASSES, dirn=0), {"kind": kind}
 
 
-def font_from_rules(passes, ipos, ncols, gattr=None):
-    """passes: list of (pre, maxloop, [(sort, pre, constraint bytes, action bytes, pattern)]) -> (sfnt bytes, model description)"""
+def font_from_rules(passes, ipos, ncols, gattr=None, dirn=0):
+    """passes: list of (pre, maxloop, [(sort, pre, constraint bytes, action bytes, pattern)][, pass flags]) -> (sfnt bytes, model description)"""
     cols = [(g, g, (g - 1) % ncols) for g in range(1, NG)]
     specs = []
-    for pre, ml, rules in passes:
+    for ps in passes:
+        pre, ml, rules = ps[:3]
         trans, nst, ntr, nsu, rm = trie_fsm([ru[4] for ru in rules], ncols)
-        specs.append(dict(pre=pre, rules=rules, ml=ml, trans=trans, nst=nst, ntr=ntr, nsu=nsu, rm=rm))
+        specs.append(dict(pre=pre, rules=rules, ml=ml, trans=trans, nst=nst, ntr=ntr, nsu=nsu, rm=rm, flags=(ps[3] if len(ps) > 3 else 0)))
 
     def passes_fn(i, base):
         sp = specs[i]
-        return mk_pass([ru[:4] for ru in sp["rules"]], ncols, cols, sp["trans"], sp["nst"], sp["ntr"], sp["nsu"], sp["rm"], [0], sp["pre"], sp["pre"], base, maxloop=sp["ml"])
+        return mk_pass([ru[:4] for ru in sp["rules"]], ncols, cols, sp["trans"], sp["nst"], sp["ntr"], sp["nsu"], sp["rm"], [0], sp["pre"], sp["pre"], base, maxloop=sp["ml"], flags=sp["flags"])
     gattr = gattr or [[0, 0, 0, 0] for _ in range(NG)]
-    data = build_with(passes_fn, len(specs), 0, ipos, CLASSES, dirn=0, gattr=gattr)
+    data = build_with(passes_fn, len(specs), 0, ipos, CLASSES, dirn=dirn, gattr=gattr)
     colarr = [0xFFFF] + [(g - 1) % ncols for g in range(1, NG)]
     pm = []
     for sp in specs:
-        pm.append("/".join(["%d,%d,%d,%d,%d,%d,%d" % (sp["ml"], sp["pre"], sp["pre"], ncols, sp["ntr"], sp["nst"], sp["nsu"]), ",".join(map(str, colarr)), "0",
+        pm.append("/".join(["%d,%d,%d,%d,%d,%d,%d,%d" % (sp["ml"], sp["pre"], sp["pre"], ncols, sp["ntr"], sp["nst"], sp["nsu"], sp["flags"]), ",".join(map(str, colarr)), "0",
                             ";".join(",".join(map(str, row)) for row in sp["trans"]) or "-", ";".join((",".join(map(str, l)) or "-") for l in sp["rm"]) or "-",
                             ";".join("%d,%d,%s,%s" % (ru[0], ru[1], ru[2].hex() or "-", ru[3].hex() or "-") for ru in sp["rules"]),
                             ";".join(".".join(map(str, ru[4])) for ru in sp["rules"])]))
-    model = "ipos=%d classes=%s gattr=%s gadv=%s passes=%s" % (ipos, ";".join(".".join(map(str, c)) for c in CLASSES), ";".join(".".join(map(str, g)) for g in gattr),
-                                                              ".".join(str(500 + 10 * g) for g in range(NG)), "|".join(pm))
+    model = "ipos=%d sdir=%d classes=%s gattr=%s gadv=%s passes=%s" % (ipos, dirn, ";".join(".".join(map(str, c)) for c in CLASSES), ";".join(".".join(map(str, g)) for g in gattr),
+                                                                      ".".join(str(500 + 10 * g) for g in range(NG)), "|".join(pm))
     return data, model
 
 
